@@ -477,6 +477,8 @@ def isRAProvisioner : Option Prov → Bool
   | _ => false
 
 /-- `AuthorizeRenewToken` decision skeleton: the provisioner must load (noop is an error here);
+    `tokenUnused`: the token's own `jti` (payload hash when empty) has not been recorded yet
+    (`a.useRenewToken`, commit 42a611b: independent of the provisioner's type);
     the audience test is `!matchesAudience(…) && !isRAProvisioner(p)`: a renew token for a
     certificate issued through a registration authority is addressed to the RA's URL, so its
     audience is deliberately not compared. -/
@@ -674,7 +676,7 @@ def authorizeRenewCalls : List String :=
    "AuthorizeRenew"]
 
 def renewTokenCalls : List String :=
-  ["ParseX5cInsecure", "Claims", "LoadProvisionerByCertificate", "UseToken", "ValidateWithLeeway",
+  ["ParseX5cInsecure", "Claims", "LoadProvisionerByCertificate", "useRenewToken", "ValidateWithLeeway",
    "matchesAudience", "isRAProvisioner", "GetName"]
 
 def defaultAuthorizeRenewChecks : List String :=
